@@ -674,12 +674,26 @@ class NodeDeref:
         self.index.collectVars(freeVars, boundVars, additionalBoundVars)
 
 
+class NodeValue:
+    # a value that has been computed already
+    def __init__(self, value, pos):
+        self.value = value
+        self.pos = pos
+
+    def evaluate(self, environment):
+        return self.value
+
+
 class NodeDerefAssign:
-    def __init__(self, expression, index, value, pos):
+    def __init__(self, expression, index, value, pos, compound=None):
         self.expression = expression
         self.value = value
         self.index = index
         self.pos = pos
+        # x[i] op= v: (function of the operator, default value, v); the
+        # target expressions x and i are evaluated once, value (the tree of
+        # x[i] = x[i] op v) is what is printed
+        self.compound = compound
 
     @ownPosition
     def evaluate(self, environment):
@@ -689,7 +703,22 @@ class NodeDerefAssign:
         container = self.expression.evaluate(environment)
         if isExit(container):
             return container
-        value = self.value.evaluate(environment)
+        if self.compound is None:
+            value = self.value.evaluate(environment)
+        else:
+            fname, default_value, operand = self.compound
+            current = NodeDeref(
+                NodeValue(container, self.pos),
+                NodeValue(idx, self.pos),
+                default_value,
+                self.pos,
+            ).evaluate(environment)
+            if isExit(current):
+                return current
+            call = NodeFuncall(NodeIdentifier(fname, self.pos), self.pos)
+            call.addArg("a", NodeValue(current, self.pos))
+            call.addArg("b", operand)
+            value = call.evaluate(environment)
         if isExit(value):
             return value
 
